@@ -459,7 +459,7 @@ func (p *sparser) primary() (SExpr, error) {
 		}
 		if p.isOp("(") {
 			p.next()
-			if t.val == "calls" || t.val == "lastret" || t.val == "lastarg" || t.val == "countret" || t.val == "firstret" {
+			if t.val == "calls" || t.val == "lastret" || t.val == "lastarg" || t.val == "countret" || t.val == "firstret" || t.val == "passed" || t.val == "alltrue" {
 				// first argument is a function name, taken as raw text: (*T).M, Iface.M, f
 				depth := 0
 				start := p.peek().pos
